@@ -328,21 +328,25 @@ theorem C01_cycle_test_complete : type_of% @hasCycles_false_rank := @hasCycles_f
 
 /-- on an adjacency-consistent state that passed the cycle test the longest-path traversal, the layer assignment and the construction of
     the layer list all return -/
+theorem rank_of_acyclic (g : G) (hA : AdjL g) (hc : hasCycles g = .ok false) :
+    ∃ rank : Nat → Nat, ∀ v w, w ∈ outNbrs g v → w ≠ v → rank w < rank v := by
+  obtain ⟨rank, hr⟩ := hasCycles_false_rank g hc
+  refine ⟨rank, ?_⟩
+  intro v w hw hne
+  unfold outNbrs at hw
+  obtain ⟨e, he, rfl⟩ := List.mem_map.1 hw
+  by_cases hv : v < g.nodes.size
+  · apply hr v (by simpa [G.nodeIds] using hv)
+    unfold outAdj
+    refine List.mem_map.2 ⟨e, List.mem_filter.2 ⟨he, ?_⟩, rfl⟩
+    have hsrc := (hA.toAdj.outs v e he).2
+    simp only [G.selfLoops, hsrc, Bool.not_eq_true', beq_eq_false_iff_ne, ne_eq]
+    exact fun h => hne h.symm
+  · rw [(node_default_lists g v hv).2] at he; cases he
+
 theorem longestPath_total_of_acyclic (g : G) (hA : AdjL g) (hc : hasCycles g = .ok false) :
     ∃ g2, (execLongestPath g >>= buildLayers) = .ok g2 := by
-  obtain ⟨rank, hr⟩ := hasCycles_false_rank g hc
-  have hR : ∀ v w, w ∈ outNbrs g v → w ≠ v → rank w < rank v := by
-    intro v w hw hne
-    unfold outNbrs at hw
-    obtain ⟨e, he, rfl⟩ := List.mem_map.1 hw
-    by_cases hv : v < g.nodes.size
-    · apply hr v (by simpa [G.nodeIds] using hv)
-      unfold outAdj
-      refine List.mem_map.2 ⟨e, List.mem_filter.2 ⟨he, ?_⟩, rfl⟩
-      have hsrc := (hA.toAdj.outs v e he).2
-      simp only [G.selfLoops, hsrc, Bool.not_eq_true', beq_eq_false_iff_ne, ne_eq]
-      exact fun h => hne h.symm
-    · rw [(node_default_lists g v hv).2] at he; cases he
+  obtain ⟨rank, hR⟩ := rank_of_acyclic g hA hc
   obtain ⟨memo, hm⟩ := heights_total g hA.toAdj.edgesWF rank hR
   have hex : ∃ g1, execLongestPath g = .ok g1 := by
     unfold execLongestPath
